@@ -1148,6 +1148,30 @@ def check_C10(ctx):
             if e6 and e1 and e6[0] != e1[0] and e6[0] != '-2' and nb < 4:
                 nb += 1; relation_violation(ctx, 'C10_all_ascii_domains', {'domain': hx(d), 'tld_check': t, 'mode_6531': e6, 'mode_5321': e1,
                                             'explanation': 'all-ASCII domain: mode 6531 differs from the ASCII modes and the reason is not an IDN-library error'})
+    # the same relation through the facade, after the setup sequences a program may go through (mode confirmed once, twice, after an
+    # ASCII mode, after a rejected setup): U-label and A-label spelling must get the same outcome, and the model's
+    pairs_ua = [(d, orc[d][1]) for d in doms if orc[d][0] == 0 and orc[d][1] and (0, orc[d][1]) == orc.get(orc[d][1], (1, b''))[0:2]]
+    pairs_ua = sub(ctx, pairs_ua, max(1, len(pairs_ua) // 120))[:160]
+    seqs = ['i s', 'i s s', 'i r1 s r3 s', 'i r1 s r3 s s', 'i s r9 s', 'i s m8 s', 'i s t0 s', 'i r0 s r3 s r3 s']
+    fl, fkey = [], []
+    for u, a in pairs_ua:
+        for sq in seqs:
+            for sp, dd in (('U', u), ('A', a)):
+                fl.append('A %s %s x f' % (sq, gens.enc_e(b'u@' + dd, orc))); fkey.append((u, sq, sp))
+    corr(ctx, 'facade(U- and A-label after setup sequences)', fl, lambda ln, o: o, describe=desc, genuine=False, nontrivial=lambda ln, o: ' R' in o)
+    c_f, _ = vlib.run_both(lib, ctx.snap, fl)
+    last = {}
+    for k, o in zip(fkey, c_f):
+        tok = o.split(' ')
+        e = [t for t in tok if t.startswith('R') and t.count(':') >= 3]
+        # decision, error code, result code, flags of the validation; or the crash
+        last[k] = ('CRASH' if 'CRASH' in o else (e[-1].split(':')[0], e[-1].split(':')[1], e[-1].split(':')[3].split(',')[0], e[-1].split(':')[3].split(',')[2]) if e else o)
+    for (u, sq, sp), v in last.items():
+        if sp == 'U' and nb < 6:
+            va = last.get((u, sq, 'A'))
+            if v == 'CRASH' or va == 'CRASH' or v != va:
+                nb += 1; relation_violation(ctx, 'C10_U_and_A_label_identical', {'u_label': hx(u), 'history': 'A %s e<address> x f' % sq, 'u_outcome': v, 'a_outcome': va,
+                                            'explanation': 'through eav_is_email after this setup sequence, the U-label and the A-label spelling of one domain get different outcomes (or the call crashes)'})
     return finish(ctx, rule='U cases: is_utf8_domain on domains of 1-4 labels from 8 scripts (with hyphen / disallowed-code-point / xn-- mutations), their A-label forms, every IDN TLD of raw.csv, '
                   'ASCII domains; E cases: the same as addresses in four modes; libidn2 2.3.3 is the oracle and the hypotheses the theorems make about it are checked on every conversion',
                   extra_trusted=['libidn2 2.3.3 (IDNA2008 conversion; its accept/reject decision for non-ASCII labels is taken as the definition of "IDNA2008-valid")'])
